@@ -30,35 +30,73 @@ BUDGET = {"quick": 50, "thorough": 400}
 SUB8 = (rc.INTEGER8, rc.UNSIGNED8)
 
 
-def make_map(layout, pre=None):
+def make_map(layout, pre=None, via="add", pre_same=None):
+    """Build RPDO 1 of a fresh RemoteNode with `layout`.
+    via='add'      add_variable() per entry
+    via='from_od'  the mapping is described by the dictionary (defaults of 0x1400/0x1600) and
+                   taken over with read(from_od=True)
+    pre            another layout (other objects) the same map object held before clear()
+    pre_same       a permutation of range(len(layout)): the SAME objects were mapped in that order
+                   before (and looked up through the node), then clear() and the real order"""
     import canopen
+    mapping = [{"sub": 0, "name": "n", "dt": rc.UNSIGNED8},
+               {"sub": 1, "name": "e", "dt": rc.UNSIGNED32}]
+    com = [{"sub": 0, "name": "n", "dt": rc.UNSIGNED8},
+           {"sub": 1, "name": "cob", "dt": rc.UNSIGNED32},
+           {"sub": 2, "name": "type", "dt": rc.UNSIGNED8}]
+    if via == "from_od":
+        com[1]["default"] = 0x203
+        com[2]["default"] = 255
+        mapping = [{"sub": 0, "name": "n", "dt": rc.UNSIGNED8, "default": len(layout)}] + [
+            {"sub": k + 1, "name": f"e{k + 1}", "dt": rc.UNSIGNED32,
+             "default": ((0x2000 + k) << 16) | e["len"]} for k, e in enumerate(layout)]
     spec = [
-        {"kind": "record", "index": 0x1400, "name": "RPDO 1 comm", "members": [
-            {"sub": 0, "name": "n", "dt": rc.UNSIGNED8},
-            {"sub": 1, "name": "cob", "dt": rc.UNSIGNED32},
-            {"sub": 2, "name": "type", "dt": rc.UNSIGNED8}]},
-        {"kind": "array", "index": 0x1600, "name": "RPDO 1 map", "members": [
-            {"sub": 0, "name": "n", "dt": rc.UNSIGNED8},
-            {"sub": 1, "name": "e", "dt": rc.UNSIGNED32}]},
+        {"kind": "record", "index": 0x1400, "name": "RPDO 1 comm", "members": com},
+        {"kind": "array", "index": 0x1600, "name": "RPDO 1 map", "members": mapping},
     ]
     for k, e in enumerate(layout):
-        spec.append({"kind": "var", "index": 0x2000 + k, "name": f"f{k}", "dt": e["dt"], "pdo": True})
+        spec.append({"kind": "var", "index": 0x2000 + k, "name": f"fld{k}", "dt": e["dt"], "pdo": True})
     for k, e in enumerate(pre or []):
         spec.append({"kind": "var", "index": 0x2100 + k, "name": f"p{k}", "dt": e["dt"], "pdo": True})
     node = canopen.RemoteNode(3, build_od(spec))
+    canopen.Network().add_node(node)        # read(from_od=True) subscribes the enabled map
     pmap = node.rpdo[1]
+
+    def add(index, e):
+        full = rc.width(e["dt"])
+        return pmap.add_variable(index, 0, None if e["len"] == full else e["len"])
+
     if pre:
         # the same map object held another (typically longer) mapping before: re-mapped after clear()
         for k, e in enumerate(pre):
-            full = rc.width(e["dt"])
-            pmap.add_variable(0x2100 + k, 0, None if e["len"] == full else e["len"])
+            add(0x2100 + k, e)
         pmap.data[:] = b"\xde" * len(pmap.data)
         pmap.clear()
-    vars_ = []
-    for k, e in enumerate(layout):
-        full = rc.width(e["dt"])
-        vars_.append(pmap.add_variable(0x2000 + k, 0, None if e["len"] == full and not e.get("explicit") else e["len"]))
+    if pre_same:
+        for k in pre_same:
+            add(0x2000 + k, layout[k])
+        for k in pre_same:                       # the application looks its variables up ...
+            _ = node.rpdo[f"fld{k}"].offset
+            _ = node.pdo[0x2000 + k].offset
+        pmap.clear()                             # ... and then re-maps them in another order
+    if via == "from_od":
+        pmap.read(from_od=True)
+        vars_ = list(pmap.map)
+    else:
+        vars_ = [add(0x2000 + k, e) for k, e in enumerate(layout)]
     return node, pmap, vars_
+
+
+def resolve(node, pmap, vars_, k, lookup):
+    if lookup == "node_name":
+        return node.rpdo[f"fld{k}"]
+    if lookup == "node_index":
+        return node.pdo[0x2000 + k]
+    if lookup == "map_name":
+        return pmap[f"fld{k}"]
+    if lookup == "map_pos":
+        return pmap[k]
+    return vars_[k]
 
 
 def field_value(dt, ln, F, off):
@@ -114,7 +152,13 @@ def run_case(case) -> Outcome:
     elif any(e["len"] < 8 and e["dt"] in rc.SIGNED for e in layout):
         klass = "signed-subbyte"
     try:
-        node, pmap, vars_ = make_map(layout, case.get("pre"))
+        node, pmap, vars_ = make_map(layout, case.get("pre"), case.get("via", "add"), case.get("pre_same"))
+        if len(vars_) != len(layout):
+            bad("map-size", f"{layout}: {len(vars_)} variables mapped (via {case.get('via', 'add')})")
+            return Outcome(nontrivial, klass, D)
+        lookup = case.get("lookup", "direct")
+        if lookup != "direct":
+            vars_ = [resolve(node, pmap, vars_, k, lookup) for k in range(len(layout))]
     except Exception as e:
         bad("add_variable-raises", f"{layout}: {type(e).__name__}: {e}")
         return Outcome(nontrivial, klass, D)
@@ -296,8 +340,13 @@ def layout_case(draw):
         else:
             v = draw(st.floats(allow_nan=False))
         ops.append({"var": k, "v": v})
-    case = {"layout": layout, "frame": frame, "ops": ops}
-    if draw(st.integers(0, 2)) == 0:
+    case = {"layout": layout, "frame": frame, "ops": ops,
+            "via": draw(st.sampled_from(["add", "add", "from_od"])),
+            "lookup": draw(st.sampled_from(["direct", "direct", "node_name", "node_index", "map_name", "map_pos"]))}
+    if len(layout) >= 2 and draw(st.integers(0, 3)) == 0:
+        case["pre_same"] = draw(st.permutations(list(range(len(layout)))))
+        case["via"] = "add"
+    elif draw(st.integers(0, 2)) == 0:
         pre = []
         rem = 64
         for _ in range(draw(st.integers(1, 4))):
@@ -323,8 +372,26 @@ def remap_cases():
                    "ops": [{"var": 0, "v": values_for(layout[0]["dt"], layout[0]["len"])[-1]}]}
 
 
+def config_path_cases():
+    """Mapping taken from the dictionary with read(from_od=True): every type with its full length
+    (64-bit objects included), and the same objects re-mapped in another order after node-level lookups."""
+    for dt in FULL + [rc.BOOLEAN]:
+        ln = rc.width(dt) if dt != rc.BOOLEAN else 1
+        layout = [{"dt": rc.UNSIGNED8, "len": 3}, {"dt": dt, "len": ln}] if ln <= 56 else [{"dt": dt, "len": ln}]
+        for lookup in ("direct", "node_name", "node_index"):
+            yield {"layout": layout, "frame": bytes([0x5A] * 8), "via": "from_od", "lookup": lookup,
+                   "ops": [{"var": len(layout) - 1, "v": values_for(dt, ln)[-1]}]}
+    lay = [{"dt": rc.UNSIGNED8, "len": 4}, {"dt": rc.INTEGER16, "len": 16}, {"dt": rc.UNSIGNED8, "len": 8},
+           {"dt": rc.BOOLEAN, "len": 1}]
+    for perm in ([3, 2, 1, 0], [1, 0, 3, 2], [2, 3, 0, 1]):
+        for lookup in ("node_name", "node_index", "map_name"):
+            yield {"layout": lay, "frame": bytes(8), "pre_same": perm, "lookup": lookup,
+                   "ops": [{"var": 0, "v": 9}, {"var": 1, "v": -2}, {"var": 2, "v": 200}, {"var": 3, "v": True}]}
+
+
 def search(ctx):
     thorough = ctx.tier == "thorough"
     ctx.enumerate(enum_cases(), "every data type at every bit offset 0..63; all 2^len values of fields <= 8 bits")
     ctx.enumerate(remap_cases(), "maps re-mapped after clear() from a longer / shorter mapping")
+    ctx.enumerate(config_path_cases(), "mapping taken from the dictionary; same objects re-mapped after lookups")
     ctx.hypothesis(layout_case(), 40000 if thorough else 4000)
